@@ -40,7 +40,17 @@ def check_fetches(case, stats):
     ic = case["icache"]
     sim = rvdrive.new_sim("single", True, None, ic)
     n = case["n"]
-    sim.state.instruction_memory.write_instructions([rvdrive.mk_ins(["addi", i % 32, 0, i % 2048], 4 * i) for i in range(n)])
+    how = case.get("load", 0)
+    if how == 0:
+        sim.state.instruction_memory.write_instructions([rvdrive.mk_ins(["addi", i % 32, 0, i % 2048], 4 * i) for i in range(n)])
+    else:
+        # the program arrives through load_program (which resets the instruction memory system first) - optionally into a
+        # simulation that loaded and fetched from another program before; the configured cache is what serves the fetches
+        if how == 2:
+            sim.load_program("nop\n" * min(n, 40))
+            for a in range(0, 4 * min(n, 40), 4):
+                sim.state.instruction_memory.read_instruction(a)
+        sim.load_program("".join(f"addi x{i % 32}, x0, {i % 2048}\n" for i in range(n)))
     im = sim.state.instruction_memory
     lower = im.instruction_memory
     ref = RefCache(ic["idx"], ic["blk"], ic["ways"], ic["repl"], "ro")
@@ -215,7 +225,7 @@ def fetches_case(draw):
     n = min(4096, stride * (ic["ways"] + 3))
     pool = [t * stride + o for t in range(ic["ways"] + 3) for o in range(min(stride, 3))]
     seq = draw(st.lists(st.sampled_from(pool), min_size=2 * ic["ways"] + 2, max_size=60))
-    return {"kind": "fetches", "icache": ic, "n": n, "seq": seq}
+    return {"kind": "fetches", "icache": ic, "n": n, "seq": seq, "load": draw(st.sampled_from([0, 1, 1, 2])) if n <= 600 else 0}
 
 
 def reload_case():
